@@ -17,6 +17,7 @@ deleted afterwards), all VIOLATION with a shrunk replay, quick tier, seed 0:
 and the seeded changes C01_C (range fast path ignoring exclusive bounds) and C01_F (postings start as Set, promoted to
 TreeSet at 64 docids, the 65th docid is lost).
 """
+from lib import zbox
 from lib.core import exc_name, idset
 
 ID = "C01"
@@ -290,6 +291,11 @@ def gen_history(rng, tier, ids, nvals, maxlen, npool=len(INT_POOL)):
 
 
 def gen(rng, tier, idx):
+    # 15% of the cases keep the index in a ZODB connection with commits / evictions / aborts in between
+    return zbox.sprinkle(rng, gen_mem(rng, tier, idx), 0.15)
+
+
+def gen_mem(rng, tier, idx):
     fam = rng.choice([32, 64])
     vtype = rng.choice(VTYPES)
     cfg = [["cfg", "family", fam], ["cfg", "vtype", vtype],
@@ -342,7 +348,7 @@ class FieldImpl(object):
         self.rank = rank_table(self.vtype)
         fam = BTrees.family32 if cfg.get("family") == 32 else BTrees.family64
         if cfg.get("disc") == "callable":
-            disc = lambda obj, default: getattr(obj, "x", default)  # noqa: E731
+            disc = zbox.disc_x
         else:
             disc = "x"
         self.opt = bool(cfg.get("opt", 1))
@@ -454,7 +460,13 @@ class FieldImpl(object):
 
 def impl_run(hyp, case):
     im = FieldImpl(hyp, cfgdict(case))
-    return [im.execute(c) for c in case["cmds"]]
+    if not zbox.is_zodb(case):
+        return [im.execute(c) for c in case["cmds"]]
+    box = zbox.ZBox({"idx": im.idx})
+    try:
+        return [box.txn(c, im, ("current",)) if c[0] == "txn" else im.execute(c) for c in case["cmds"]]
+    finally:
+        box.close()
 
 
 def nontrivial(case, outs):
@@ -501,6 +513,9 @@ def size_features(case, value_of):
 def features(case, outs):
     cfg = cfgdict(case)
     f = ["family:%s" % cfg.get("family"), "vtype:%s" % cfg.get("vtype"), "mode:%s" % cfg.get("mode", "small")]
+    if zbox.is_zodb(case):
+        f.append("zodb-backed")
+        f += ["txn:" + " ".join(map(str, c[1:])) for c in case["cmds"] if c[0] == "txn"]
     sf, _ = size_features(case, lambda c: "none" if c[2] == "none" else (c[2],))
     f += sf
     last = {}
